@@ -1,7 +1,7 @@
 (* C13 -- The database lock is exclusive, survives client crashes, is granted.
    Property theorems only; proofs live in Proofs/LockProofs.v. *)
 From Coq Require Import List ZArith Bool Arith.
-From DV Require Import Model.Lock Proofs.LockProofs.
+From DV Require Import Model.Lock Proofs.LockProofs Model.Frame Model.Client Proofs.ClientProofs.
 Import ListNotations.
 
 (* After every history of acquire / poll / release / disconnect / timer events
@@ -86,6 +86,29 @@ Proof.
   intros n evs st. apply L_holder_frees. apply (L_inv_run evs (linit n)), L_inv_init.
 Qed.
 Print Assumptions C13_progress.
+
+(* The blocking client (comms.acquire: send the request, then
+   `while buf != Mutex.unlock: buf = message.receive(s)`): on a stream of busy
+   statuses followed by "yours" -- what the server writes, C13_told_truth --
+   it returns exactly at the first "yours", having consumed nothing behind it,
+   for every fragmentation of the stream. *)
+Theorem C13_client_acquire : forall yours bs y s rest fuel,
+  Forall (fun c : list Z => c <> []) s ->
+  Forall (fun m => (Z.of_nat (length m) < 4294967296)%Z) (bs ++ [y]) ->
+  Forall (fun m => yours m = false) bs -> yours y = true -> length bs < fuel ->
+  concat s = concat (map send (bs ++ [y])) ++ rest ->
+  exists s', acquire_wait fuel yours s = Some (bs ++ [y], s') /\ concat s' = rest.
+Proof.
+  intros yours bs y s rest fuel NE Hl Hb Hy Hf E.
+  destruct (C_acquire_wait yours bs y s rest fuel NE Hl Hb Hy Hf E) as (s' & R & C & _).
+  exists s'. auto.
+Qed.
+Print Assumptions C13_client_acquire.
+
+Example C13_client_acquire_example :
+  acquire_wait 5 (fun p => list_eqb p [1%Z]) [[0;0;0;1;0;0]; [0;0;1;0;0;0;0;1;1;0;0]]%Z
+  = Some ([[0]; [0]; [1]], [[0;0]])%Z.
+Proof. vm_compute. reflexivity. Qed.
 
 (* non-vacuity: contention, a drop while holding, a drop while waiting *)
 Example C13_example :
